@@ -9,6 +9,7 @@
 -/
 import GojaModel.Base.Proto
 import GojaModel.C04.Model
+import GojaModel.C04.Typed
 namespace GojaModel.C04.Driver
 open GojaModel.C04 GojaModel.Proto
 
@@ -97,6 +98,14 @@ structure St where
   heap : Heap Nat
   n : Nat
   prev : List (Nat × Snap Nat)
+  typed : Nat → Option (List Nat) := fun _ => none       -- integer-indexed exotic objects (Uint8Array): their elements
+
+def St.xh (st : St) : XHeap Nat := { h := st.heap, typed := st.typed }
+def St.ofX (st : St) (x : XHeap Nat) : St := { st with heap := x.h, typed := x.typed }
+
+/-- ToNumber + ToUint8 on the value tokens: the pool numbers 100..105 stay, everything else becomes a number outside the
+pools (undefined/functions → NaN → 0, getter results 300+i → 44+i, small numbers) -/
+def coerceU8 (v : Nat) : Nat := if 100 ≤ v && v < 200 then v else 5000
 
 def emptyObj : Obj Nat := { proto := none, ext := true, props := [] }
 /-- the built-in prototypes the modelled kinds inherit from, as far as the key pool of the generator can see them:
@@ -108,8 +117,12 @@ def builtinObj (i : Nat) : Obj Nat :=
       props := [(Key.str "length", SProp.data 5000 false false true), (Key.str "name", SProp.data 5000 false false true)] }
   else if i == 999 then
     { proto := some 900, ext := true, props := [(Key.str "length", SProp.data 5000 false false false)] }
+  else if i == 998 then
+    -- Uint8Array.prototype → %TypedArray%.prototype: `length` is an accessor whose getter (token 5002) throws a TypeError
+    -- unless `this` is a typed array
+    { proto := some 900, ext := true, props := [(Key.str "length", SProp.acc (some 5002) none false true)] }
   else emptyObj
-def St.init : St := { heap := builtinObj, n := 0, prev := [] }
+def St.init : St := { heap := builtinObj, n := 0, prev := [], typed := fun _ => none }
 
 def valOf (t : String) : Nat :=
   if t == "u" then 0
@@ -143,6 +156,7 @@ def showProto : Option Nat → String
   | some 900 => "O"
   | some 901 => "F"
   | some 999 => "?"
+  | some 998 => "?"
   | some n => s!"o{n}"
 def recvOf (o : Nat) (t : String) : Recv :=
   if t == "=" then .obj o else if t == "p" then .prim
@@ -171,21 +185,22 @@ def showProp : SProp Nat → String
 def fuelOf (st : St) : Nat := st.n + 4
 
 /-- for-in order: enumerable string-keyed properties along the chain, own keys first, shadowed names skipped. -/
-def forIn (h : Heap Nat) : List Nat → List Key → List Key
+def forIn (xh : XHeap Nat) : List Nat → List Key → List Key
   | [], _ => []
   | o :: rest, seen =>
-    let ks := (ownKeys (h o).props).filter (fun k => !k.isSym)
+    let ks := (xOwnKeys xh o).filter (fun k => !k.isSym)
     let fresh := ks.filter (fun k => !seen.contains k)
-    let en := fresh.filter (fun k => match lookup (h o).props k with | some p => p.enumerable | none => false)
-    en ++ forIn h rest (seen ++ fresh)
+    let en := fresh.filter (fun k => match xGetOwn xh o k with | some p => p.enumerable | none => false)
+    en ++ forIn xh rest (seen ++ fresh)
 
 def dumpObj (st : St) (i : Nat) : String :=
   let o := st.heap i
-  let sn := o.snap
-  let ks := ",".intercalate (sn.keys.map showK)
-  let ps := ",".intercalate (sn.props.map (fun kp => showK kp.1 ++ ":" ++ showProp kp.2))
-  let fi := ",".intercalate ((forIn st.heap (chainOf st.heap (fuelOf st) i) []).map showK)
-  s!"O{i} proto={showProto o.proto} ext={tf o.ext} fz={tf (sTestIntegrity o true)} sl={tf (sTestIntegrity o false)} keys=[{ks}] props=[{ps}] forin=[{fi}]"
+  let xh := st.xh
+  let keys := xOwnKeys xh i
+  let ks := ",".intercalate (keys.map showK)
+  let ps := ",".intercalate (keys.filterMap (fun k => (xGetOwn xh i k).map (fun p => showK k ++ ":" ++ showProp p)))
+  let fi := ",".intercalate ((forIn xh (chainOf st.heap (fuelOf st) i) []).map showK)
+  s!"O{i} proto={showProto o.proto} ext={tf o.ext} fz={tf (xTestIntegrity xh i true)} sl={tf (xTestIntegrity xh i false)} keys=[{ks}] props=[{ps}] forin=[{fi}]"
 
 def dumpAll (st : St) : String :=
   " | ".intercalate ((List.range st.n).map (dumpObj st))
@@ -202,6 +217,13 @@ def initProps (kind : String) : List (Key × SProp Nat) :=
      (Key.str "length", SProp.data xv false false false)]
   -- unmapped (strict) arguments object of f(101, 102) (10.4.4.6): an ORDINARY object with these own properties;
   -- `callee` is the %ThrowTypeError% accessor (foreign function token: calling it throws), y3 = Symbol.iterator
+  -- mapped (sloppy) arguments object of f(101, 102): observationally ordinary while the parameter variables are private
+  -- (theorems `mappedArguments_*`); `callee` is the function (foreign value), y3 = Symbol.iterator
+  else if kind == "args" then
+    [(Key.idx 0, SProp.data 101 true true true), (Key.idx 1, SProp.data 102 true true true),
+     (Key.str "length", SProp.data xv true false true),
+     (Key.str "callee", SProp.data xv true false true),
+     (Key.sym 3, SProp.data xv true false true)]
   else if kind == "sargs" then
     [(Key.idx 0, SProp.data 101 true true true), (Key.idx 1, SProp.data 102 true true true),
      (Key.str "length", SProp.data xv true false true),
@@ -223,50 +245,61 @@ def step (st : St) (line : String) : St × String :=
   | ["N"] => (St.init, "new")
   | ["mk", id, kind, proto] =>
     let i := id.toNat!
-    let o : Obj Nat := { proto := protoOf proto, ext := true, props := initProps kind }
-    ({ st with heap := st.heap.upd i o, n := max st.n (i + 1) }, "mk")
+    let pr := if kind == "u8" && proto == "?" then some 998 else protoOf proto
+    let o : Obj Nat := { proto := pr, ext := true, props := initProps kind }
+    let ty := if kind == "u8" then (fun j => if j = i then some [5000, 5000] else st.typed j) else st.typed
+    ({ st with heap := st.heap.upd i o, n := max st.n (i + 1), typed := ty }, "mk")
   | ["def", via, o, k, dv, dw, de, dc, dg, ds, dump] =>
     let oi := objOfTok o
     let d : Desc Nat := { value := if dv == "-" then none else some (valOf dv), writable := flagTok dw,
                           enumerable := flagTok de, configurable := flagTok dc, getter := accTok dg, setter := accTok ds }
     let key := keyOf k
-    let (h, ok) := sDefine 0 st.heap oi key d
-    finish { st with heap := h } (resTok via ok) (dump == "D")
+    let (x, ok) := xDefine 0 coerceU8 st.xh oi key d
+    finish (st.ofX x) (resTok via ok) (dump == "D")
   | ["set", via, o, k, v, r, dump] =>
     let oi := objOfTok o
     let recv := recvOf oi r
-    let (h, a) := sSet 0 st.heap (chainOf st.heap (fuelOf st) oi) (keyOf k) (valOf v) recv
+    let (x, a) := xSet 0 coerceU8 st.xh (chainOf st.heap (fuelOf st) oi) (keyOf k) (valOf v) recv
     let res := match a with
       | .fail => resTok via false
-      | .write .. => resTok via true
+      | .ok => resTok via true
       | .call f this arg =>
         if f ≥ 5000 then "throw"                       -- %ThrowTypeError% (arguments.callee)
         else resTok via true ++ s!" s{f - 200}@{showRecv this}={showV arg}"
-    finish { st with heap := h } res (dump == "D")
+    finish (st.ofX x) res (dump == "D")
   | ["get", via, o, k, r, dump] =>
     let oi := objOfTok o
     let recv := recvOf oi r
-    let res := match sGet 0 st.heap (chainOf st.heap (fuelOf st) oi) (keyOf k) recv with
+    let res := match xGet 0 st.xh (chainOf st.heap (fuelOf st) oi) (keyOf k) recv with
       | .val v => showV v
-      | .call f this => if f ≥ 5000 then "throw" else s!"r{f - 200} g{f - 200}@{showRecv this}"
+      | .call f this =>
+        if f == 5002 then
+          (match this with
+           | .obj t => if (st.typed t).isSome then "x" else "throw"     -- %TypedArray%.prototype.length
+           | .prim => "throw")
+        else if f ≥ 5000 then "throw" else s!"r{f - 200} g{f - 200}@{showRecv this}"
     finish st res (dump == "D")
   | ["del", via, o, k, dump] =>
     let oi := objOfTok o
-    let (h, ok) := sDelete st.heap oi (keyOf k)
+    let (x, ok) := xDelete st.xh oi (keyOf k)
     let res := if via == "S" then tf ok else if via == "T" then (if ok then "t" else "throw") else resTok via ok
-    finish { st with heap := h } res (dump == "D")
+    finish (st.ofX x) res (dump == "D")
   | ["has", _, o, k, dump] =>
     let oi := objOfTok o
-    finish st (tf (sHas st.heap (chainOf st.heap (fuelOf st) oi) (keyOf k))) (dump == "D")
+    finish st (tf (xHas st.xh (chainOf st.heap (fuelOf st) oi) (keyOf k))) (dump == "D")
   | ["hasown", _, o, k, dump] =>
-    finish st (tf (lookup (st.heap (objOfTok o)).props (keyOf k)).isSome) (dump == "D")
+    finish st (tf (xGetOwn st.xh (objOfTok o) (keyOf k)).isSome) (dump == "D")
   | ["pe", via, o, dump] =>
     finish { st with heap := sPreventExt st.heap (objOfTok o) } (resTok via true) (dump == "D")
   | ["sp", via, o, p, dump] =>
     let (h, ok) := sSetProto st.heap (fuelOf st) (objOfTok o) (protoOf p)
     finish { st with heap := h } (resTok via ok) (dump == "D")
-  | ["frz", o, dump] => finish { st with heap := sSetIntegrity st.heap (objOfTok o) true } "ok" (dump == "D")
-  | ["seal", o, dump] => finish { st with heap := sSetIntegrity st.heap (objOfTok o) false } "ok" (dump == "D")
+  | ["frz", o, dump] =>
+    let (x, ok) := xSetIntegrity st.xh (objOfTok o) true
+    finish (st.ofX x) (if ok then "ok" else "throw") (dump == "D")
+  | ["seal", o, dump] =>
+    let (x, ok) := xSetIntegrity st.xh (objOfTok o) false
+    finish (st.ofX x) (if ok then "ok" else "throw") (dump == "D")
   | "M" :: id :: rest =>
     -- monitor: parse one object dump (tokens proto= ext= keys=[..] props=[..]) and compare with the previous one
     let field (name : String) : String :=
